@@ -65,6 +65,7 @@ type c07Params struct {
 	Faults   []c07Fault `json:"faults,omitempty"`
 	Dirs     []string   `json:"dirs,omitempty"` // garble/build garble/tool garble gocache-new gocache
 	Edit     *Edit      `json:"edit,omitempty"`
+	Edit2    *Edit      `json:"edit2,omitempty"` // second edit: two siblings recompile concurrently
 	P        int        `json:"p"`
 	Sched    SchedSpec  `json:"sched"`
 	MidStep  int        `json:"mid_step,omitempty"` // apply MidFault when this many steps have been released
@@ -443,6 +444,20 @@ func (c c07) Generate(e *Env) ([]*Case, error) {
 			}
 			add(c07Params{Prog: prog, Faults: fs, Edit: edMain, P: 4, Sched: sched()})
 		}
+		if prog == "p1" {
+			// Two siblings (mid1, mid2) are recompiled concurrently at -p 4 while the
+			// facts of their common dependency (leaf) are damaged: both recompute and
+			// put the same entry.
+			nC := 3
+			if thorough {
+				nC = 24
+			}
+			for i := 0; i < nC; i++ {
+				r := "example.test/p1/leaf|reflect|" + []string{"a", "d"}[rng.Intn(2)]
+				add(c07Params{Prog: prog, Faults: []c07Fault{{r, c07Modes[rng.Intn(5)]}},
+					Edit: &Edit{Pkg: "mid1", Kind: "body", N: 3}, Edit2: &Edit{Pkg: "mid2", Kind: "body", N: 4}, P: 4, Sched: sched()})
+			}
+		}
 		for i := 0; i < nS+1; i++ {
 			// an entry vanishing while the rebuild is under way (concurrent clean/trim)
 			r := roles[rng.Intn(len(roles))]
@@ -510,6 +525,9 @@ func (c c07) Run(e *Env, cs *Case) (*Outcome, error) {
 	var edits []Edit
 	if p.Edit != nil {
 		edits = []Edit{*p.Edit}
+	}
+	if p.Edit2 != nil {
+		edits = append(edits, *p.Edit2)
 	}
 	src, err := PrepareSource(w, p.Prog, p.Prog, edits)
 	if err != nil {
@@ -639,6 +657,7 @@ func (c c07) Run(e *Env, cs *Case) (*Outcome, error) {
 			puts[k][s] = true
 		}
 	}
+	putBy := map[string]string{}
 	for _, le := range s.Log {
 		if le.Msg.T != "note" {
 			continue
@@ -650,6 +669,10 @@ func (c c07) Run(e *Env, cs *Case) (*Outcome, error) {
 			}
 			puts[le.Msg.Key][le.Msg.Sum] = true
 			o.Probes["entry-recomputed"]++
+			if putBy[le.Msg.Key] != "" && putBy[le.Msg.Key] != le.Proc {
+				o.Probes["two-processes-put-the-same-entry"]++
+			}
+			putBy[le.Msg.Key] = le.Proc
 		case "cache-get":
 			if le.Msg.Err == "" {
 				if known, ok := puts[le.Msg.Key]; ok && !known[le.Msg.Sum] {
